@@ -4,7 +4,7 @@
    where "=" means the implementation's observation equals the model's, and props are the ids of
    the properties whose Spec the implementation's observation falsifies on this input. *)
 From Coq Require Import String.
-Require Import Base Node Command Glob Selector SelParse Policy PolicyIpld Chain Varint Generated Did Cbor Envelope Token SealProofs Base64 Container Stream.
+Require Import Base Node Command Glob Selector SelParse Policy PolicyIpld Chain Varint Generated Did Cbor Envelope Token SealProofs Base64 Container Stream SealedBytes.
 Local Open Scope N_scope.
 
 Definition nstr (n : node) : str := match n with Str s => s | Bytes s => s | _ => [] end.
@@ -511,9 +511,7 @@ Definition eng_cid (inp impl : node) : verdict :=
   (* a re-encoding of a sealed token: [variant bytes; decodes to the same data as the original;
      same signed content; original bytes] -> accepted? *)
   | List [Str op; Bytes variant; Bool same_data; Bool same_signed; Bytes original] =>
-      let canonical := match dec (3 + length variant) variant with
-                       | Some (n, []) => str_eqb (encode n) variant
-                       | _ => false end in
+      let canonical := match sealed_decode variant with Some _ => true | None => false end in
       let accepted := nbool impl in
       (* two accepted byte strings that carry the same signed content must be the same bytes *)
       {| model_obs := Bool (canonical && (same_data || negb (str_eqb variant original)) && accepted || (canonical && accepted));
